@@ -388,7 +388,7 @@ func runGraphCase(out *rec.Out, fam string, g *eng.Graph, vars map[string]any, v
 	for _, l := range in.Lines() {
 		out.Line("%s", l)
 	}
-	out.Line("obs final complete=%d vars=%s", rec.B(complete), in.Vars())
+	out.Line("obs final complete=%d vars=%s", rec.B(complete), in.VarsAndObjects())
 	if !o.noStop {
 		stopped := in.Stop(2 * time.Second)
 		if !stopped {
